@@ -33,18 +33,17 @@ THEOREM_NOTES = ("see coq/Props/C02.v (16 theorems): [G] row 0 of A2.3 is A2.2; 
                  "tangents; unit vector has norm 1.  [B] A4.4 Leibniz identity for all k, l <= 3; A2.3 rows = Eq. 2.9 recursion for degree <= 5 and rows "
                  "sum to zero for degree <= 6 on a symbolic knot window (all multiplicity patterns); A3.4 = A3.2 for degree <= 3 and A3.8 (repaired) = "
                  "A3.6 on the triangle k+l <= order for bi-degree <= (2,2), every order 0..p+2 (includes order > degree)")
-LEVEL_TEXT = ("partial proof.  GENERAL (all degrees, knot vectors, multiplicities): the Eq. 2.9 recursion dN is order by order the TRUE analytic "
-              "(epsilon-delta, derivable_pt_lim) derivative of the Cox-de Boor functions inside every non-empty span and the right derivative at "
-              "knots (Proofs/DerivAnalytic.v); the single-function algorithm A2.5 returns these true derivatives for every degree; order-0 entry = "
-              "evaluated point; orders above the degree give zero vectors for non-rational shapes in both evaluator families; the rational quotient "
-              "rule A4.2 satisfies sum_i C(k,i) w^(i) C^(k-i) = A^(k) for every order (so it is the k-th derivative of A/w whenever its inputs are "
-              "the derivatives of A and w); hodograph control points; normal orthogonal to both tangents, unit length over R.  BOUNDED: A2.3 "
-              "(basis_function_ders) equals dN, hence the true derivatives, for degrees 1..5 on ALL knot vectors/spans/parameters (symbolic window by "
-              "field + window locality), and therefore the non-rational curve derivative vectors of the default evaluator are the true k-th "
-              "derivatives of the curve of C01 for degrees 1..5 and every order; A4.4 only for k, l <= 3; the two evaluator families agree for "
-              "degree <= 3 (curves) / bi-degree <= (2,2) (surfaces).  ONLY TIED BY CORRESPONDENCE against the exact piecewise-polynomial Fraction "
-              "oracle: degrees above 5 for A2.3, surfaces' derivative values, rational derivative values beyond the quotient identity, the hodograph "
-              "objects and tangent/normal values")
+LEVEL_TEXT = ("proof, partial only for surfaces / rational values.  GENERAL (all degrees, knot vectors, multiplicities, orders): the Eq. 2.9 "
+              "recursion dN is order by order the TRUE analytic (epsilon-delta, derivable_pt_lim) derivative of the Cox-de Boor functions inside every "
+              "non-empty span and the right derivative at knots (Proofs/DerivAnalytic.v); A2.3 (basis_function_ders) = dN for EVERY degree (ndu table "
+              "spec, Eq. 2.10, ders_for_r invariant: Proofs/DersGeneral*.v), A2.5 = dN, A2.3 = A2.5; hence the derivative vectors of the default curve "
+              "evaluator A3.2 are the true k-th derivatives of the curve of C01 for every degree and every order (zero above the degree), right "
+              "derivatives on the half-open span incl. its left knot, left derivatives at the closed domain end; order-0 entry = evaluated point; the "
+              "rational quotient rule A4.2 satisfies sum_i C(k,i) w^(i) C^(k-i) = A^(k) for every order; hodograph control points; normal orthogonal "
+              "to both tangents, unit length over R.  BOUNDED: A4.4 only for k, l <= 3; the two evaluator families agree for degree <= 3 (curves) / "
+              "bi-degree <= (2,2) (surfaces).  ONLY TIED BY CORRESPONDENCE against the exact piecewise-polynomial Fraction oracle: surface derivative "
+              "values, rational derivative values beyond the quotient identity, the alternative evaluators beyond the bounds, the hodograph objects "
+              "and tangent/normal values")
 LEVEL_NOTE = ("theorems are about the hand-written Gallina model (Model/Derivs.v, Model/Basis.v), tied to evaluators.py/helpers.py/operations.py "
               "by the sampled correspondence check; the oracle differentiates the exact polynomial pieces (interpolated from exact Cox-de Boor "
               "values) formally and divides power series for rational shapes, independently of every derivative formula of the library")
